@@ -10,7 +10,9 @@ MUTANTS = [
     # ---- reverts of the twelve repairs (the pinned tree passes the 33 tests)
     {'id': 'R01', 'props': ['C04', 'C14'], 'patch': 'revert-01.patch', 'expect': 'RevisionIterator'},
     {'id': 'R02', 'props': ['C05'], 'patch': 'revert-02.patch', 'expect': 'subsequence'},
-    {'id': 'R03', 'props': ['C06'], 'patch': 'revert-03.patch', 'expect': 'flag-provenance'},
+    {'id': 'R03', 'props': ['C06'], 'expect': 'flag-provenance', 'edits': [(P,
+        "            let secret = RightSecretKey::random(rng, key.is_hybridized())?;\n            msk.secrets.insert(r, (is_activated, secret));",
+        "            let secret = RightSecretKey::random(rng, key.is_hybridized())?;\n            let _ = is_activated;\n            msk.secrets.insert(r, (true, secret));")]},
     {'id': 'R04', 'props': ['C10'], 'patch': 'revert-04.patch', 'expect': 'rekey'},
     {'id': 'R05', 'props': ['C10', 'C09'], 'patch': 'revert-05.patch', 'expect': 'refresh'},
     {'id': 'R06', 'props': ['C10'], 'patch': 'revert-06.patch', 'expect': 'update_msk'},
@@ -44,4 +46,20 @@ MUTANTS = [
     {'id': 'M18d', 'props': ['C18'], 'expect': 'encaps(rights)', 'edits': [('src/api.rs',
         "            mpk,\n            &rights,\n        )\n    }\n}",
         "            mpk,\n            &rights.into_iter().take(1).collect(),\n        )\n    }\n}")]},
+    # ---- C06
+    {'id': 'M06a', 'props': ['C06'], 'expect': 'cpk<=front-flag', 'edits': [(M,
+        "                        if *is_activated {\n                            Some((r.clone(), csk.cpk(&h)))",
+        "                        if *is_activated || !csk.is_hybridized() {\n                            Some((r.clone(), csk.cpk(&h)))")]},
+    {'id': 'M06b', 'props': ['C06'], 'expect': 'flag-provenance', 'edits': [(P,
+        "        let is_activated = AttributeStatus::EncryptDecrypt == status;",
+        "        let is_activated = EncryptionHint::Classic == hint || AttributeStatus::EncryptDecrypt == status;")]},
+    {'id': 'M06c', 'props': ['C06'], 'expect': 'status-monotone', 'edits': [('src/abe_policy/attribute.rs',
+        "        if self == Self::DecryptOnly || rhs == Self::DecryptOnly {",
+        "        if self == Self::DecryptOnly && rhs == Self::DecryptOnly {")]},
+    {'id': 'M06d', 'props': ['C06'], 'expect': 'mutators', 'edits': [(P,
+        "pub fn prune(msk: &mut MasterSecretKey, coordinates: &HashSet<Right>) {",
+        "pub fn reactivate(msk: &mut MasterSecretKey, r: &Right) {\n    if let Some((flag, _)) = msk.secrets.get_latest_mut(r) {\n        *flag = true;\n    }\n}\n\npub fn prune(msk: &mut MasterSecretKey, coordinates: &HashSet<Right>) {")]},
+    {'id': 'M06e', 'props': ['C06', 'C13'], 'expect': '', 'edits': [(S,
+        "                    let is_activated = de.read_leb128_u64()? == 1;",
+        "                    let is_activated = de.read_leb128_u64()? <= 1;")]},
 ]
